@@ -39,6 +39,7 @@ type tcase struct {
 	name   string
 	msg    messages.Builder
 	blank  func() messages.Builder
+	other  func() messages.Builder // a blank built with a MsgType of another length (nil for generated messages)
 	shadow *gen.SMsg
 	tags   []string // every template tag incl. framing
 	groups map[string]bool
@@ -57,6 +58,10 @@ func newCase(r *rand.Rand, o *gen.Opts, p float64, firstAlways bool) *tcase {
 		c.name = "rand"
 		c.msg = t.Build()
 		c.blank = func() messages.Builder { return t.Build() }
+		mt2 := []string{"", t.Mt + "Z", "0"}[r.Intn(3)]
+		if len(mt2) != len(t.Mt) {
+			c.other = func() messages.Builder { t2 := *t; t2.Mt = mt2; return t2.Build() }
+		}
 	}
 	all := c.msg.Items()
 	var tags []string
@@ -332,6 +337,21 @@ func rtOne(o *hout.Out, c *tcase, prop string, w []byte, dump, blankDump string)
 		if res2 != "ok" || (!bytes.Equal(w2, w) && !trailerLost) {
 			o.Fail(prop, "reserialize-differs", strings.ReplaceAll(string(w2), "\x01", "|"), op)
 		}
+		// a message object constructed for another MsgType (a relay's generic container) filled by the parser and
+		// serialized again: the framing must be that of the bytes it now carries
+		if c.other != nil {
+			b5 := c.other()
+			if r5 := safeUnmarshal(b5, w, true); r5 == "ok" {
+				w5, res5 := safeToBytes(b5)
+				o.Count("C01.reserialized-from-other-type")
+				if res5 == "ok" {
+					o.Emit("spec", "C01", "c01 "+tagsOp(c.shadow)+" "+wire.X([]byte(c.shadow.MtTag))+" "+wire.X(w5), "pass")
+				}
+				if res5 != "ok" || (!bytes.Equal(w5, w) && !trailerLost) {
+					o.Fail("C01", "reserialize-into-other-type-differs", fmt.Sprintf("res=%s got=%q want=%q", res5, w5, w), op)
+				}
+			}
+		}
 		// non-strict mode must agree
 		b3 := c.blank()
 		if r3 := safeUnmarshal(b3, w, false); r3 != "ok" || wire.Msg(b3.Items()) != wire.Msg(b.Items()) {
@@ -467,6 +487,51 @@ func runDmg(r *rand.Rand, o *hout.Out) {
 		}
 		for l := 0; l < len(w); l++ {
 			try("prefix", l, 0, append([]byte{}, w[:l]...))
+		}
+		// one long-lived unmarshaller (as a session owns one) and one receive buffer that is reused: the valid
+		// message is accepted, then the same buffer is damaged in place and handed in again
+		{
+			u := encoding.NewDefaultUnmarshaller(strict)
+			bufw := append([]byte{}, w...)
+			with := func(m messages.Builder, d []byte) (res string) {
+				defer func() {
+					if e := recover(); e != nil {
+						res = "panic"
+					}
+				}()
+				if err := u.Unmarshal(m, d); err != nil {
+					return "err"
+				}
+				return "ok"
+			}
+			if rr := with(c.blank(), bufw); rr != "ok" {
+				o.Fail("C02", "valid-rejected-by-long-lived-unmarshaller", fmt.Sprintf("result=%s strict=%v msg=%q", rr, strict, w), "dec "+blankDump+" "+wire.X(w))
+			}
+			for pos := 0; pos < len(bufw); pos++ {
+				old := bufw[pos]
+				for k := 0; k < 6; k++ {
+					b := byte(r.Intn(256))
+					if k == 0 {
+						b = old ^ 1
+					}
+					if b == old {
+						continue
+					}
+					bufw[pos] = b
+					o.Count("C03.variants.subst-inplace")
+					m := c.blank()
+					if rr := with(m, bufw); rr != "err" {
+						v := append([]byte{}, bufw...)
+						o.Emit("spec", "C03", "c03 "+tagsOp(s)+" "+wire.X(v), "pass")
+						o.Fail("C03", "damaged-accepted", fmt.Sprintf("kind=subst-inplace byte=%d region=other result=%s strict=%v pos=%d (same unmarshaller and buffer accepted the valid message just before) msg=%q", b, rr, strict, pos, v),
+							"dec "+blankDump+" "+wire.X(v))
+					}
+					bufw[pos] = old
+					if r.Intn(4) == 0 {
+						_ = with(c.blank(), bufw) // the valid message again in between
+					}
+				}
+			}
 		}
 		o.Nontrivial("C03", string(w))
 		o.Sample("C03", strings.ReplaceAll(string(w), "\x01", "|"))
